@@ -12,7 +12,7 @@ flock 9
 if ! git -C /repo diff --quiet; then echo "/repo dirty"; exit 2; fi
 git -C /repo apply "$D/patch.diff" || exit 2
 START=$(date +%s)
-./check "$PROP" "$TIER" > "$D/check.out" 2>&1; RC=$?
+VERIF_EVIDENCE_DIR=/tmp/mutant-evidence ./check "$PROP" "$TIER" > "$D/check.out" 2>&1; RC=$?
 END=$(date +%s)
 git -C /repo checkout -- . ; git -C /repo clean -fdq src tests examples 2>/dev/null
 python3 - <<P
@@ -23,5 +23,4 @@ json.dump({"check":"./check $PROP $TIER","exit":$RC,"detected":$RC==1,"violation
 print("$ID $M ->", "DETECTED" if $RC==1 else ("MISSED" if $RC==0 else "HARNESS-ERROR rc=$RC"), cls)
 P
 rm -f /verif/replays/*.json
-git -C /verif checkout -- evidence 2>/dev/null
 ) 9>/tmp/repo.lock
